@@ -37,7 +37,7 @@ func init() {
 			"F2 every copy into a fixed-size pooled buffer is bounded by guards whose constants fit the buffer including the destination offset (or the buffer is re-allocated to the source length), and re-slices of pooled buffers use lengths derived from the buffer; F3 two-sided slices have ordered bounds (or the MarshalSize-of-a-header-parsed-from-the-same-bytes idiom) and length-relative bounds are tested; " +
 			"F4 results of Attributes.GetRTPHeader/GetRTCPPackets, rtcp.Unmarshal and pion/rtp Unmarshal are used only on the success branch of their error; A4 read buffers are used only as buffer[:n]; D3 no blocking send/receive on an internal channel on an API path without a close-channel case or default (no wedge).",
 		notDecided:  "crash-freedom itself: panics whose absence rests on arithmetic invariants (ring/bitmap indices seq%size, packetArrivalTimeMap capacity arithmetic, flexfec XOR lengths and constant header offsets), nil dereferences, panics inside pion/rtp and pion/rtcp, termination of loops (all loops over untrusted counts are bounded by 16-bit fields; not checked mechanically), one-sided slices s[n:] whose bound a callee computed",
-		sels:        []sel{s("F1"), s("F2"), so("F3"), s("F4"), s("A4"), s("D3")},
+		sels:        []sel{so("F5"), s("L4", `jitterbuffer`), s("F1"), s("F2"), so("F3"), s("F4"), s("A4"), s("D3")},
 		assumptions: append([]string{"comparisons are credited as guards whatever their direction/strictness (a missing guard is detected, an off-by-one in a present guard is not, except for constant guards of pooled-buffer copies where the arithmetic is checked)", "two evaluations of a condition built only from parameters and constants agree (path classes are split on such conditions)"}, stdAssume...),
 	})
 	def(&propDef{
@@ -78,7 +78,7 @@ func init() {
 			"T1 — retain/release typestate: every packet obtained from RTPBuffer.Get is released exactly once after its last use, every slot overwrite in RTPBuffer.Add/Clear releases the previous occupant exactly once, Get hands out only packets that passed a successful Retain (a double release would recycle a buffer that is still being retransmitted); " +
 			"C1 — ring, stream table and reference count are only touched under their mutexes; A1 — the original packet is forwarded exactly once after the copy; D5 — unbind removes the stream's ring.",
 		notDecided:  "which sequence numbers the ring holds (window arithmetic seq%size, half-range tests), RTX header field values, the padding arithmetic, that the retransmission goroutine has finished when Close returns (known finding under C11)",
-		sels: []sel{s("F2", `rtpbuffer`), s("B", `nack\.\(\*ResponderInterceptor\)`), s("T1"), so("T2"), s("C1", `pkg/nack\.(localStream|ResponderInterceptor)\.|rtpbuffer\.RetainablePacket\.`),
+		sels: []sel{s("P3", `rtpbuffer\.RTPBuffer`), s("F2", `rtpbuffer`), s("B", `nack\.\(\*ResponderInterceptor\)`), s("T1"), so("T2"), s("C1", `pkg/nack\.(localStream|ResponderInterceptor)\.|rtpbuffer\.RetainablePacket\.`),
 			s("A1", `nack\.\(\*ResponderInterceptor\)`), s("D5", `nack\.ResponderInterceptor`)},
 		assumptions: stdAssume,
 	})
@@ -110,7 +110,7 @@ func init() {
 		explanation: "Decides three structural clauses: L1 — every exported Pop* method of JitterBuffer reaches the queue only on the playing branch of the state test and the other branch returns an error (sibling agreement over Pop, PopAtSequence, PopAtTimestamp); L2 — the playout head is only advanced where the queue call's error is known nil (a failed pop does not disturb the buffer); " +
 			"L3 — every Clear resets each root from which queries traverse (PriorityQueue.next, JitterBuffer.packets, RTPBuffer.packets): assigned nil/fresh, element-cleared over the whole range, or delegated — otherwise Find/PopAt/PopAtTimestamp still return what was buffered before Clear.",
 		notDecided:  "sortedness of the linked list for arbitrary push orders (plain < on uint16, not wrap-aware), length bookkeeping, that PopAtSequence advances the head by one whatever sequence was popped, scalar playout state (playoutReady/playoutHead) after Clear(true)",
-		sels:        []sel{s("J3", `\|pkg/jitterbuffer[.:]`), s("L1"), s("L2"), s("L3")},
+		sels:        []sel{s("L4", `jitterbuffer`), s("J3", `\|pkg/jitterbuffer[.:]`), s("L1"), s("L2"), s("L3")},
 		assumptions: std,
 	}
 	props["C20"] = &propDef{
@@ -129,7 +129,7 @@ func init() {
 		explanation: "Decides the structural clauses the statement singles out: G1 — in every function that walks []*rtcp.RecvDelta with a cursor, no instruction that advances the cursor is control-dependent (post-dominator based, transitively) on a condition derived from a lookup in long-lived state (a comma-ok map lookup on a field, or a (T,bool) lookup predicate such as feedbackHistory.get): the arrival time decoded for a packet is independent of whether neighbouring packets are still in the history; " +
 			"G2 — in every symbol loop, the counter that feeds the attribution key (feedbackHistoryKey.sequenceNumber / acknowledgement.sequenceNumber) is advanced exactly once on every path through the loop body (path counting), or is the range index; F1 — every index into RecvDeltas / packet-derived slices is guarded; E2 — the flag that lets history.delete release the TWCC mapping is actually set.",
 		notDecided:  "arrival-time arithmetic (reference time ×64 ms, 250 µs deltas, RFC 8888 offsets), LRU contents of the sent-packet history, that each sent packet is reported at most once and in send order (value properties of history.buildReport), zero-valued acknowledgements emitted for unknown packets",
-		sels:        []sel{s("J3", `\|(pkg/rtpfb|internal/cc)[.:]`), s("G1"), s("G2"), s("F1", `rtpfb\.convertTWCC|FeedbackAdapter|rtpfb\.convert`), so("E2", `rtpfb\.history`), so("E1", `rtpfb\.history`)},
+		sels:        []sel{s("P3", `rtpfb\.history`), s("J3", `\|(pkg/rtpfb|internal/cc)[.:]`), s("G1"), s("G2"), s("F1", `rtpfb\.convertTWCC|FeedbackAdapter|rtpfb\.convert`), so("E2", `rtpfb\.history`), so("E1", `rtpfb\.history`)},
 		assumptions: std,
 	}
 	props["C16"] = &propDef{
@@ -149,7 +149,7 @@ func init() {
 		id: "C07", title: "Sender reports count what was sent (counter clause only)",
 		explanation: "Decides the counter clause: P1 — the sender-report writer closure calls senderStream.processRTP exactly once (path counting) before each identity forward, with the caller's own payload; inside processRTP packetCount is assigned its previous value +1 and octetCount its previous value + len(payload), each exactly once on every path (no branch skips or repeats them); A1 — every packet is forwarded exactly once or rejected; C1/C6 — both counters are only touched under senderStream.m and the read-modify-write is one critical section (no lost update).",
 		notDecided:  "the RTP↔NTP clause entirely: extrapolated RTP timestamp, NTP conversion, modulo-2^32 arithmetic, the out-of-order reference rule, one report per stream per tick",
-		sels:        []sel{s("P1"), s("A1", `report\.\(\*SenderInterceptor\)`), s("C1", `report\.senderStream\.`), s("C6", `report\.senderStream\.`), s("D5", `report\.SenderInterceptor`)},
+		sels:        []sel{s("P3", `report\.senderStream`), s("P1"), s("A1", `report\.\(\*SenderInterceptor\)`), s("C1", `report\.senderStream\.`), s("C6", `report\.senderStream\.`), s("D5", `report\.SenderInterceptor`)},
 		assumptions: std,
 	}
 	props["C14"] = &propDef{
@@ -165,7 +165,7 @@ func init() {
 		explanation: "Decides: Q1 — FIFO discipline of the queue API: the leaky-bucket pacer's list is only used through PushBack/Front/Remove(Front())/Len, the pacing interceptor's slice queue is appended at the tail, read at element 0 and cut [1:]; Q2 — in the consumer loop at most one downstream Write per dequeued packet and exactly one unless the stream has no writer (comma-ok lookup failed), and a pacer's Write returns a nil error only on paths that enqueued exactly once; " +
 			"Q3 — in the token-bucket loop every Write is dominated by a test of the limiter's budget and by a charge (AllowN) of the limiter; B — what is queued is a copy (header Clone, payload copy); F2 — the copy into the pooled buffer cannot truncate; C1 — queue and writer table under their mutexes; D2 — the consumer loops stop on Close.",
 		notDecided:  "the cumulative-bits inequality as a numeric bound; ordering across the lock hand-over in Run beyond the single-consumer structure; that NoOpPacer holds its lock across the downstream write (noted)",
-		sels:        []sel{s("Q1"), s("Q2"), s("Q3"), s("Q4"), s("B", `gcc\.\(\*(LeakyBucket|NoOp)Pacer\)|pacing\.`), s("F2", `gcc\.`), s("C1", `gcc\.(LeakyBucket|NoOp)Pacer\.|pacing\.`), s("D2", `gcc\.\(\*LeakyBucketPacer\)|pacing\.`)},
+		sels:        []sel{s("F5", `pkg/(pacing|gcc)\.`), s("Q1"), s("Q2"), s("Q3"), s("Q4"), s("B", `gcc\.\(\*(LeakyBucket|NoOp)Pacer\)|pacing\.`), s("F2", `gcc\.`), s("C1", `gcc\.(LeakyBucket|NoOp)Pacer\.|pacing\.`), s("D2", `gcc\.\(\*LeakyBucketPacer\)|pacing\.`)},
 		assumptions: std,
 	}
 	props["C19"] = &propDef{
@@ -173,7 +173,7 @@ func init() {
 		explanation: "Decides: S1 — every store into a field of the exported *StreamStats structs in the recorder's record* methods is dominated by a branch condition computed from the recorder's own SSRC (header SSRC, MediaSSRC, report SSRC or DestinationSSRC membership compared with r.ssrc): a counter only moves for traffic addressed to that SSRC; S2 — the loops over the packets of a compound RTCP have no early exit (every packet of the compound is visited); S3 — no branch inside such a loop tests a loop-carried boolean that was computed from the recorder's SSRC for an earlier packet (each packet is judged by itself); " +
 			"A1/A2 on the four stats closures — every forwarded / successfully read packet is handed to the recorder exactly once and a failed read never is; C1/C6 — latestStats is only read and updated under recorder.ms in one critical section (no lost update).",
 		notDecided:  "every formula: packets lost as expected-minus-received, jitter, RTT from LSR/DLSR and DLRR, fraction lost, NTP conversions — numerical",
-		sels:        []sel{s("S1"), s("S2"), s("S3"), s("S4"), s("S5"), s("A1", `stats\.`), s("A2", `stats\.`), s("C1", `stats\.`), s("C6", `stats\.`)},
+		sels:        []sel{s("P3", `stats\.internalStats`), s("S1"), s("S2"), s("S3"), s("S4"), s("S5"), s("A1", `stats\.`), s("A2", `stats\.`), s("C1", `stats\.`), s("C6", `stats\.`)},
 		assumptions: std,
 	}
 }
